@@ -798,6 +798,14 @@ impl Callbacks for Cb {
                         .collect();
                     it.push(("inputs", jarr(&inputs)));
                     it.push(("output", jstr(&cx.ty(sig.output().skip_binder()))));
+                    // the item's own type parameters, in the order in which references list their type arguments
+                    // (`targs`): lets a rule read a generic private function once per instantiation
+                    let generics: Vec<String> = ty::GenericArgs::identity_for_item(tcx, def_id)
+                        .iter()
+                        .filter_map(|a| a.as_type())
+                        .map(|t| jstr(&cx.ty(t)))
+                        .collect();
+                    it.push(("generics", jarr(&generics)));
                     let attrs = tcx.codegen_fn_attrs(def_id);
                     it.push(("no_mangle", jbool(attrs.symbol_name.is_some() || attrs.flags.contains(rustc_middle::middle::codegen_fn_attrs::CodegenFnAttrFlags::NO_MANGLE))));
                 }
